@@ -195,6 +195,35 @@ class RM:
         """All simple directed cycles all of whose hops are open."""
         n = len(self.sims)
         sids = [s["sid"] for s in self.sims]
+        if not any(e.weak for e in self.conns):
+            # without weak connections a hop is open iff one of its connections has no time shift,
+            # whatever the cycle: an unresolved cycle is a cycle in the graph of open hops (DFS)
+            adj: Dict[str, set] = {}
+            for e in self.conns:
+                if e.k == 0:
+                    adj.setdefault(e.u, set()).add(e.v)
+            for (u, v) in self.async_links:
+                adj.setdefault(u, set()).add(v)
+            color: Dict[str, int] = {}
+            stack: List[str] = []
+            found: List[List[str]] = []
+
+            def dfs(x):
+                color[x] = 1
+                stack.append(x)
+                for y in sorted(adj.get(x, ())):
+                    if color.get(y) == 1:
+                        found.append(stack[stack.index(y):])
+                        return True
+                    if color.get(y) is None and dfs(y):
+                        return True
+                stack.pop()
+                color[x] = 2
+                return False
+            for x in sids:
+                if color.get(x) is None and dfs(x):
+                    break
+            return found
         hop: Dict[Tuple[str, str], list] = {}
         for e in self.conns:
             hop.setdefault((e.u, e.v), []).append(("conn", e.k, e.weak, e.c))
